@@ -44,6 +44,7 @@ class ExecBase:
         self.max_inst_depth = 4
         self.lean_specs = False
         self.let_env = {}
+        self.loop_ids = {}
         self.discovered_init = set()
 
     # ------------------------------------------------------------------ utilities
